@@ -150,12 +150,34 @@ def run_cluster_bounds(ctx, rep):
         if fn.crate not in ('fatfs', 'fatfs-inlined') or not fn.blocks:
             continue
         d = None
+        # a closure sees captured variables as fields 0, 1, .. of its environment: give them the names they have where
+        # the closure is built
+        cap_names = {}
+        if '::{closure' in fn.name:
+            parent = facts.fns.get(fn.name.rsplit('::{closure', 1)[0])
+            if parent is not None:
+                for bi_ in parent.reachable():
+                    for s_ in parent.blocks[bi_]['stmts']:
+                        if s_['k'] == 'assign' and s_['rv']['k'] == 'agg' and s_['rv'].get('ak') == 'closure' and \
+                                s_['rv'].get('def') == fn.name:
+                            dp_ = Deps(parent)
+                            for i_, o_ in enumerate(s_['rv']['ops']):
+                                nm_ = {parent.locals[tk[1]].get('name') for tk in dp_.of_operand(o_)
+                                       if tk[0] in ('local', 'param')} - {None}
+                                cap_names[str(i_)] = nm_
 
         def side_info(toks):
+            extra = set()
+            for tk in toks:
+                if tk[0] == 'field' and tk[1] in cap_names:
+                    extra |= cap_names[tk[1]]
+            toks = set(toks) | {('capname', x) for x in extra}
             has_total = any((tk[0] == 'call' and tk[1].endswith('::total_clusters')) or tk == ('field', 'total_clusters') or
-                            (tk[0] in ('local', 'param') and (fn.locals[tk[1]].get('name') or '') == 'total_clusters')
+                            (tk[0] in ('local', 'param') and (fn.locals[tk[1]].get('name') or '') == 'total_clusters') or
+                            tk == ('capname', 'total_clusters')
                             for tk in toks)
-            names = {fn.locals[tk[1]].get('name') for tk in toks if tk[0] in ('local', 'param')} - {None}
+            names = ({fn.locals[tk[1]].get('name') for tk in toks if tk[0] in ('local', 'param')} |
+                     {tk[1] for tk in toks if tk[0] == 'capname'}) - {None}
             fields = {tk[1] for tk in toks if tk[0] == 'field'}
             is_number = any(name_rx.search(x) for x in names | fields if 'clusters' not in x) and \
                 not any('count' in x for x in names | fields)
